@@ -14,6 +14,7 @@ package main
 import (
 	"fmt"
 	"os"
+	"runtime/pprof"
 	"sort"
 	"strings"
 	"sync"
@@ -129,7 +130,7 @@ func streamLeaves(n int) []Cons {
 // consumersFor lists every consumer for digest size n.
 //
 //	mode "all":    every consumer, CloneStream with all 36 unordered pairs
-//	mode "main":   every consumer, CloneStream with the 9 pairs {ToByteSlice(n+1)} x 8 leaves + Discard||Discard
+//	mode "main":   every consumer, CloneStream with the 10 pairs ToChunkReader(0,1) x 8 leaves, ToByteSlice||ToByteSlice, Discard||Discard
 //	mode "stream": only CloneStream, all 36 unordered pairs
 //	mode "proto":  only ToProto(n-1|n|n+1)
 func consumersFor(n int, mode string) []Cons {
@@ -182,7 +183,10 @@ func consumersFor(n int, mode string) []Cons {
 	sl := streamLeaves(n)
 	for i := range sl {
 		for j := i; j < len(sl); j++ {
-			if mode == "main" && i != 0 && !(i == j && sl[i].Kind == "Discard") {
+			// sl[2] is ToChunkReader(0,1): it caps the shared chunk size
+			// at 1 byte, which avoids the 64 KiB allocation per Read that
+			// the default chunk size costs on reader-backed buffers.
+			if mode == "main" && i != 2 && j != 2 && !(i == j && (i == 0 || sl[i].Kind == "Discard")) {
 				continue
 			}
 			out = append(out, Cons{Kind: "CloneStream", C1: &sl[i], C2: &sl[j]})
@@ -201,7 +205,7 @@ const streamLeavesText = "L = {ToByteSlice(n+1), ToReader(buf 1), ToChunkReader(
 
 var consText = map[string]string{
 	"all":    "consumers for digest size n: " + consTextBase + "; CloneStream then every unordered pair (36) of " + streamLeavesText + " in two goroutines",
-	"main":   "consumers for digest size n: " + consTextBase + "; CloneStream then ToByteSlice(n+1) || each of " + streamLeavesText + ", and Discard || Discard (9 pairs, two goroutines; all 36 pairs are in sub-check clonestream)",
+	"main":   "consumers for digest size n: " + consTextBase + "; CloneStream then ToChunkReader(0,1) || each of " + streamLeavesText + ", ToByteSlice(n+1) || ToByteSlice(n+1) and Discard || Discard (10 pairs, two goroutines; all 36 pairs are in sub-check clonestream)",
 	"stream": "consumers for digest size n: CloneStream then every unordered pair (36) of " + streamLeavesText + ", the two halves consumed in two goroutines",
 	"proto":  "consumers for digest size n: ToProto(google.protobuf.Int64Value, limit n-1|n|n+1)",
 }
@@ -212,6 +216,25 @@ var consText = map[string]string{
 type lenCfg struct {
 	fns      []string
 	trailing []string
+	kinds    []string // digest kinds; nil = all (see digestsFor)
+}
+
+var coreKinds = []string{"true", "size-1", "size+1", "last-nibble"}
+
+func (c lenCfg) wantKind(k string) bool {
+	if c.kinds == nil {
+		return true
+	}
+	for _, x := range c.kinds {
+		if x == k {
+			return true
+		}
+	}
+	return false
+}
+
+func (c lenCfg) key() string {
+	return strings.Join(c.fns, ",") + "|" + strings.Join(c.trailing, ",") + "|" + strings.Join(c.kinds, ",")
 }
 
 // plan describes one sub-check.
@@ -232,13 +255,17 @@ func (p plan) space() string {
 	fmt.Fprintf(&b, " Base contents c: all strings over the alphabet %q of length 0..%d. ", p.alphabet, len(p.perLen)-1)
 	for l := 0; l < len(p.perLen); {
 		m := l
-		for m+1 < len(p.perLen) && strings.Join(p.perLen[m+1].fns, ",") == strings.Join(p.perLen[l].fns, ",") && strings.Join(p.perLen[m+1].trailing, ",") == strings.Join(p.perLen[l].trailing, ",") {
+		for m+1 < len(p.perLen) && p.perLen[m+1].key() == p.perLen[l].key() {
 			m++
 		}
-		fmt.Fprintf(&b, "Length %d..%d: digest functions {%s}, trailing strings %q. ", l, m, strings.Join(p.perLen[l].fns, ","), p.perLen[l].trailing)
+		kinds := "all digest kinds"
+		if p.perLen[l].kinds != nil {
+			kinds = "digest kinds {" + strings.Join(p.perLen[l].kinds, ",") + "} only"
+		}
+		fmt.Fprintf(&b, "Length %d..%d: digest functions {%s}, trailing strings %q, %s. ", l, m, strings.Join(p.perLen[l].fns, ","), p.perLen[l].trailing, kinds)
 		l = m + 1
 	}
-	b.WriteString("Digests per (c, function): true; size-1 (if size>0); size+1; first hash nibble changed; last hash nibble changed; hash of another function with the same hash length under this function's name (SHA1<->GITSHA1, SHA256<->BLAKE3, SHA256TREE<-BLAKE3). ")
+	b.WriteString("Digest kinds per (c, function): true; size-1 (if size>0); size+1; first-nibble (first hash nibble changed); last-nibble; hash-of-X (hash of another function X with the same hash length under this function's name: SHA1<->GITSHA1, SHA256<->BLAKE3, SHA256TREE<-BLAKE3). ")
 	b.WriteString("Delivered data per c: c; every proper prefix of c (source shorter than the digest says); c with its last byte flipped; c followed by each trailing string. ")
 	for _, ct := range p.ctors {
 		switch ct {
@@ -310,6 +337,9 @@ func runPlan(r *ev.Run, p plan) {
 		f := fnByName(it.fn)
 		dels := delivered(it.base, p.alphabet, p.perLen[len(it.base)].trailing)
 		for _, dg := range digestsFor(f, it.base) {
+			if !p.perLen[len(it.base)].wantKind(dg.Kind) {
+				continue
+			}
 			cons := consCache[int(dg.Size)]
 			for _, s := range dels {
 				for _, ctor := range p.ctors {
@@ -400,7 +430,7 @@ func runPlan(r *ev.Run, p plan) {
 	}
 	sub.Extra = extra
 	if countOnly {
-		sub.CapsHit = append(sub.CapsHit, "C09_COUNT set: cases counted, not executed")
+		// Debug aid: size of the space without executing it (no evidence).
 		fmt.Printf("count %s: %d cases %v\n", p.name, total.evals, total.byLen)
 		return
 	}
@@ -482,16 +512,19 @@ func main() {
 	ab := "ab"
 	trail6 := []string{"a", "b", "aa", "ab", "ba", "bb"}
 	trail2 := []string{"a", "ab"}
-	full := lenCfg{allFnNames(), trail6}
 	pieces := ev.Pick(r, 3, 4)
+	all8 := allFnNames()
+	two := []string{"SHA256", "GITSHA1"}
+	one := []string{"GITSHA1"}
 	// What is enumerated per base content length (index = length).
 	mainCfg := ev.Pick(r,
-		cat(rep(3, full), rep(1, lenCfg{[]string{"SHA256", "GITSHA1", "SHA256TREE"}, trail2}), rep(1, lenCfg{[]string{"GITSHA1"}, trail2})),
-		cat(rep(4, full), rep(1, lenCfg{[]string{"SHA256", "GITSHA1", "MD5", "SHA256TREE"}, trail2}), rep(2, lenCfg{[]string{"GITSHA1"}, trail2})))
-	two := lenCfg{[]string{"SHA256", "GITSHA1"}, trail2}
-	streamCfg := ev.Pick(r, rep(4, lenCfg{[]string{"SHA256"}, trail2}), rep(5, two))
-	unexpCfg := ev.Pick(r, rep(3, two), rep(5, two))
-	protoCfg := rep(ev.Pick(r, 5, 6), lenCfg{[]string{"SHA256", "MD5"}, []string{"\x08", "\x01"}})
+		[]lenCfg{{all8, trail6, nil}, {all8, trail6, nil}, {all8, trail2, nil}, {two, trail2, nil}, {one, trail2, coreKinds}},
+		[]lenCfg{{all8, trail6, nil}, {all8, trail6, nil}, {all8, trail6, nil}, {all8, trail6, nil}, {two, trail2, nil}, {one, trail2, coreKinds}, {one, trail2, coreKinds}})
+	streamCfg := ev.Pick(r,
+		rep(4, lenCfg{[]string{"SHA256"}, trail2, nil}),
+		cat(rep(4, lenCfg{two, trail2, nil}), rep(1, lenCfg{[]string{"SHA256"}, trail2, coreKinds})))
+	unexpCfg := ev.Pick(r, rep(3, lenCfg{two, trail2, nil}), rep(4, lenCfg{two, trail2, nil}))
+	protoCfg := rep(ev.Pick(r, 5, 6), lenCfg{[]string{"SHA256", "MD5"}, []string{"\x08", "\x01"}, nil})
 
 	plans := []plan{
 		{name: "slice", what: "NewCASBufferFromByteSlice.", alphabet: ab, ctors: []string{"slice"}, finals: []string{"EOF"}, consMode: "all", maxPieces: 1, perLen: mainCfg},
@@ -501,10 +534,18 @@ func main() {
 		{name: "unexpected-eof", what: "Reader and chunk-reader constructors whose source ends with io.ErrUnexpectedEOF instead of io.EOF (truncated flate/zstd/HTTP input).", alphabet: ab, ctors: []string{"reader", "chunk"}, finals: []string{"EUNEXP"}, consMode: "main", maxPieces: pieces, perLen: unexpCfg},
 		{name: "proto", what: "ToProto on all three constructors; the alphabet is chosen so that many contents are valid encodings (0x08 0x01 = field 1 varint 1) and many are not (a lone 0x08 is truncated).", alphabet: "\x08\x01", ctors: []string{"slice", "reader", "chunk"}, finals: []string{"EOF", "EIO"}, consMode: "proto", maxPieces: 2, perLen: protoCfg},
 	}
+	if pf := os.Getenv("C09_CPUPROFILE"); pf != "" {
+		f, _ := os.Create(pf)
+		pprof.StartCPUProfile(f)
+	}
 	for _, p := range plans {
 		if r.Want(p.name) {
 			runPlan(r, p)
 		}
+	}
+	pprof.StopCPUProfile()
+	if os.Getenv("C09_COUNT") != "" {
+		os.Exit(0)
 	}
 	r.Finish()
 }
